@@ -31,10 +31,18 @@ Id == Traces[tid].id
 
 Say(call, clause, S) == PrintT(ToJson([verdict |-> Id, at |-> l, call |-> call, clause |-> clause,
                                        n |-> Cardinality(S), first |-> IF S = {} THEN 0 ELSE Min(S)]))
+\* for node clauses: which nodes (serial numbers, at most 6) and what the two sides show at the first one
+SayNodes(call, clause, S, XA, XB) ==
+    LET i == Min(S)
+        few == {j \in S : Cardinality({k \in S : k < j}) < 6}
+    IN PrintT(ToJson([verdict |-> Id, at |-> l, call |-> call, clause |-> clause, n |-> Cardinality(S), first |-> i,
+                      sns |-> SetToSeq(few), ty |-> XA[i].ty, nm |-> XA[i].nm, exp |-> XA[i], got |-> XB[i]]))
 \* every clause of the statement, on every node; TRUE always (verdicts are printed, the history continues)
 Judge(call, exp, got) ==
     IF ~SameShape(exp, got) THEN Say(call, "Shape", {Len(got)})
-    ELSE (\A c \in ClauseSet : LET S == Failing(c, exp, got) IN S = {} \/ Say(call, c, S)) = TRUE
+    ELSE LET XA == BySn(exp)
+             XB == BySn(got)
+         IN (\A c \in ClauseSet : LET S == FailingSn(c, XA, XB) IN S = {} \/ SayNodes(call, c, S, XA, XB)) = TRUE
 JudgeFile(call, exp, got) ==
     (\A k \in DOMAIN exp : exp[k] = got[k] \/
         Say(call, "File:" \o k, IF Len(exp[k]) # Len(got[k]) THEN {Len(got[k])}
